@@ -331,6 +331,9 @@ def iterative_rejection_helper(
 
     if max_prior_samples is None:
         max_prior_samples = n_total_samples
+    else:
+        # never process more prior samples than the library holds
+        max_prior_samples = min(n_total_samples, int(max_prior_samples))
 
     # The "magic numbers" below control how fast the iterative batches grow
     # in size, and the maximum number of iterations
